@@ -874,7 +874,10 @@ def honesty_faults(part, c, ci, oname, order, le, vname, vm, exe, rng, tier):
         if isinstance(clean, common.Crash):
             continue
         N = Obs(clean).calls
-        everything = (not quick) and small
+        # exhaustive enumeration only where one call has at most 25000 checked statuses (bn-level
+        # verifiers and the signer on secp112r1); the byte-level verifiers spend ~10^5 more inside the
+        # public-key validation and stay stride-sampled
+        everything = (not quick) and small and N <= 25000
         common.part_count(part, "fault_positions_total", N)
         for p in _positions(N, want, rng, everything):
             cases.append(mk(p))
@@ -969,7 +972,7 @@ def run(tier):
         report.extra["variant_restrictions"] = "8-bit-digit variant runs on curves <= 256 bit only (cost ~25x)"
     report.extra["fault_enumeration"] = (
         "per (curve, byte order): one build variant; positions stride-sampled over the N checked statuses of one call "
-        "(quick ~14-20 per plan, thorough 40-100 per plan and ALL positions of every plan on secp112r1)")
+        "(quick ~14-20 per plan, thorough 40-100 per plan and ALL positions of the plans with N <= 25000 on secp112r1)")
     if report.extra["fault_positions_hit"] == 0:
         report.inconclusive.append("failpoint never fired")
     if report.extra.get("sign_equal_reference", 0) == 0:
